@@ -31,11 +31,15 @@ _dummy_element = Element('dummy')
 
 
 def is_ncname(s: str) -> bool:
-    return s.isalpha() and ':' not in s and all(is_ncname_continuation(c) for c in s[1:])
+    return is_ncname_start(s[:1]) and ':' not in s and all(is_ncname_continuation(c) for c in s[1:])
+
+
+def is_ncname_start(c: str) -> bool:
+    return c.isalpha() or c == '_'
 
 
 def is_ncname_continuation(c: str) -> bool:
-    return (c.isalnum() or c in '-.\u00B7\u0387\u06DD\u06DE\u203F\u2040'
+    return (c.isalnum() or c in '_-.\u00B7\u0387\u06DD\u06DE\u203F\u2040'
             or 0x300 <= ord(c) <= 0x36F)
 
 
@@ -79,14 +83,14 @@ def split_path(path: str, namespaces: Optional[NsmapType] = None,
             elif path[end] == '{':
                 advance(lambda x: x != '}')
                 end += 1
-                if path[end].isalpha():
+                if is_ncname_start(path[end]):
                     advance(is_ncname_continuation)
-            elif path[end].isalpha():
+            elif is_ncname_start(path[end]):
                 advance(is_ncname_continuation)
                 if path[end] == ':':
                     prefix = path[start:end]
                     end += 1
-                    if path[end].isalpha():
+                    if is_ncname_start(path[end]):
                         advance(is_ncname_continuation)
                         if extended_names and namespaces and prefix in namespaces:
                             flush()
